@@ -30,6 +30,9 @@ pub trait LockObserver {
     fn acquired(&self, lock: usize, mode: Mode, model_ok: bool);
     /// Called after the real guard was released.
     fn after_release(&self, lock: usize, mode: Mode);
+    /// Called when a non-blocking acquisition found the lock busy. A scheduler lets other
+    /// threads run here (the caller may be spinning); may unwind like `before_acquire`.
+    fn try_failed(&self, _lock: usize, _mode: Mode) {}
 }
 
 thread_local! {
@@ -181,7 +184,12 @@ impl<T: ?Sized> RwLock<T> {
                     observer,
                 })))
             }
-            Err(TryLockError::WouldBlock) => Err(TryLockError::WouldBlock),
+            Err(TryLockError::WouldBlock) => {
+                if let Some(o) = &observer {
+                    o.try_failed(lock, Mode::Read);
+                }
+                Err(TryLockError::WouldBlock)
+            }
         }
     }
 
@@ -209,7 +217,12 @@ impl<T: ?Sized> RwLock<T> {
                     observer,
                 })))
             }
-            Err(TryLockError::WouldBlock) => Err(TryLockError::WouldBlock),
+            Err(TryLockError::WouldBlock) => {
+                if let Some(o) = &observer {
+                    o.try_failed(lock, Mode::Write);
+                }
+                Err(TryLockError::WouldBlock)
+            }
         }
     }
 
@@ -284,6 +297,10 @@ impl<T> Mutex<T> {
             inner: std::sync::Mutex::new(t),
         }
     }
+
+    pub fn into_inner(self) -> LockResult<T> {
+        self.inner.into_inner()
+    }
 }
 
 impl<T: ?Sized> Mutex<T> {
@@ -324,8 +341,45 @@ impl<T: ?Sized> Mutex<T> {
         }
     }
 
+    pub fn try_lock(&self) -> TryLockResult<MutexGuard<'_, T>> {
+        let lock = addr(self);
+        let observer = current();
+        match self.inner.try_lock() {
+            Ok(g) => {
+                if let Some(o) = &observer {
+                    o.acquired(lock, Mode::Write, true);
+                }
+                Ok(MutexGuard {
+                    guard: Some(g),
+                    lock,
+                    observer,
+                })
+            }
+            Err(TryLockError::Poisoned(p)) => {
+                if let Some(o) = &observer {
+                    o.acquired(lock, Mode::Write, true);
+                }
+                Err(TryLockError::Poisoned(PoisonError::new(MutexGuard {
+                    guard: Some(p.into_inner()),
+                    lock,
+                    observer,
+                })))
+            }
+            Err(TryLockError::WouldBlock) => {
+                if let Some(o) = &observer {
+                    o.try_failed(lock, Mode::Write);
+                }
+                Err(TryLockError::WouldBlock)
+            }
+        }
+    }
+
     pub fn is_poisoned(&self) -> bool {
         self.inner.is_poisoned()
+    }
+
+    pub fn get_mut(&mut self) -> LockResult<&mut T> {
+        self.inner.get_mut()
     }
 }
 
